@@ -382,7 +382,7 @@ impl Check for C10 {
         let p = pool(ctx.tier);
         let (ll, lo) = long_family();
         ctx.rule = format!(
-            "all ordered pairs over a pool of {} values (atoms null/true/false/0/1/\"\"/\"a\"/a function; every list of length <= 2 and object over keys a, b of atoms; the same one level deeper over a sub-pool{}) x 3 construction patterns (built twice; every equal container sub-term built once and referenced everywhere, across and inside the operands; object keys written in reverse order) x 4 programs (u == v then u != v then both values printed; v == u; u != v first; the === matrix); plus all pairs of lists over {{0,1}} of length <= 5 ({}) and of objects over every subset of four keys with values in {{0,1}} ({}); plus the identity of two containers obtained from every pair of 12 list and 6 object producers (literal, +, range, range read, collect, rest parameter, spread, call); symmetry, negation, sharing-independence and transitivity are checked on the table of the subject's own answers; non-trivial = all",
+            "all ordered pairs over a pool of {} values (atoms null/true/false/0/1/\"\"/\"a\"/a function; every list of length <= 2 and object over keys a, b of atoms; the same one level deeper over a sub-pool{}) x 3 construction patterns (built twice; every equal container sub-term built once and referenced everywhere, across and inside the operands; object keys written in reverse order) x 4 programs (u == v then u != v then both values printed; v == u; u != v first; the === matrix); plus all pairs of lists over {{0,1}} of length <= 5 ({}) and of objects over every subset of four keys with values in {{0,1}} ({}); plus all comparisons of 7 extreme integers (bare and nested), all pairs of 10 byte strings cut out of multi-byte characters, 11 containers compared with 9 holders of themselves in both orders; plus the identity of two containers obtained from every pair of 12 list and 6 object producers (literal, +, range, range read, collect, rest parameter, spread, call); symmetry, negation, sharing-independence and transitivity are checked on the table of the subject's own answers; non-trivial = all",
             p.len(),
             if ctx.tier == Tier::Thorough { ", and a third level over 4 values" } else { "" },
             ll.len(),
@@ -578,6 +578,55 @@ impl Check for C10 {
                 } else {
                     Verdict::Pass
                 }
+            })?;
+        }
+        // extreme integers, byte fragments of multi-byte characters, and an operand that is contained
+        // in the other one (the same container, not a copy)
+        {
+            let mut cases = vec![];
+            let ints = ["-9223372036854775807 - 1", "-9223372036854775807", "-1", "0", "1", "9223372036854775806", "9223372036854775807"];
+            for a in ints {
+                for b in ints {
+                    for op in ["==", "!=", "<", "<=", ">", ">="] {
+                        cases.push(Case::new(format!("a := {}\nb := {}\nprint(a {} b)\n", a, b, op), 10, format!("extreme integers {} {} {}", a, op, b)));
+                        if op == "==" || op == "!=" {
+                            cases.push(Case::new(format!("a := {}\nb := {}\nprint([a] {} [b])\nprint({{\"k\": [0, a]}} {} {{\"k\": [0, b]}})\n", a, b, op, op), 10, format!("extreme integers nested {} {} {}", a, op, b)));
+                        }
+                    }
+                }
+            }
+            let frags = ["\"é\"[0]", "\"é\"[1]", "\"ñ\"[1]", "\"é\"[0:1]", "\"€\"[0:2]", "\"€\"[1:3]", "\"€\"[0]", "\"a\"", "\"é\"", "\"\""];
+            for a in frags {
+                for b in frags {
+                    cases.push(Case::new(format!("a := {}\nb := {}\nprint(a == b)\nprint(a != b)\nprint([a] == [b])\nprint({{\"k\": a}} != {{\"k\": b}})\nprint((a + b) == \"é\")\nprint((a + a) == (b + b))\n", a, b), 10, format!("byte strings {} and {}", a, b)));
+                }
+            }
+            for u in ["[]", "{}", "[0]", "{\"a\": 0}", "[[]]", "{\"a\": {}}", "{\"a\": []}", "[{}]", "{\"a\": {\"a\": 0}}", "[[0], 1]", "{\"a\": [0], \"b\": {}}"] {
+                for wrap in ["[u]", "{\"a\": u}", "[[u]]", "{\"a\": [u]}", "{\"a\": {\"a\": u}}", "[u, u]", "{\"a\": u, \"b\": u}", "[u, 0]", "{\"a\": u, \"b\": 0}"] {
+                    for cmp in ["u == v", "v == u", "u != v", "v != u"] {
+                        cases.push(Case::new(format!("u := {}\nv := {}\nprint({})\n", u, wrap, cmp), 11, format!("{} with u = {} inside v = {}", cmp, u, wrap)));
+                    }
+                    cases.push(Case::new(format!("u := {}\nv := {}\nw := {}\nprint(v == w)\nprint(w == v)\nprint(v != w)\nprint(u)\nprint(v)\n", u, wrap, wrap), 10, format!("two holders of u = {} as {}", u, wrap)));
+                }
+            }
+            ctx.judge(cases, |c, r, o| {
+                if !matches!(o.class, Class::Ok | Class::Err) {
+                    return viol("crash", format!("{}: {:?}", c.meta, o.class));
+                }
+                if r.is_ok() {
+                    if o.class != Class::Ok || o.stdout != r.stdout {
+                        return viol("value", format!("{}: printed {:?} ({:?} {}), reference {:?}", c.meta, o.out_str(), o.class, o.msg, String::from_utf8_lossy(&r.stdout)));
+                    }
+                } else if c.tag == 11 && o.class == Class::Ok {
+                    // a differently-typed pair exists; a plain difference may be met first
+                    let want = if c.meta.starts_with("u ==") || c.meta.starts_with("v ==") { "false\n" } else { "true\n" };
+                    if o.out_str() != want {
+                        return viol("value", format!("{}: printed {:?} although the operands differ", c.meta, o.out_str()));
+                    }
+                } else if c.tag == 10 && o.class == Class::Ok {
+                    return viol("value", format!("{}: the reference reports {}, the run printed {:?}", c.meta, ref_summary(r), o.out_str()));
+                }
+                Verdict::Pass
             })?;
         }
         ctx.guard("pairs with differently-typed corresponding positions were explored", pairs_done > 0);
